@@ -298,12 +298,13 @@ spif_bool_t
 spif_mbuff_done(spif_mbuff_t self)
 {
     ASSERT_RVAL(!SPIF_MBUFF_ISNULL(self), FALSE);
-    if (self->size) {
+    if (self->buff != (spif_byteptr_t) NULL) {
+        /* A zero-length buffer still owns its (zero-size) block. */
         FREE(self->buff);
-        self->len = 0;
-        self->size = 0;
-        self->buff = (spif_byteptr_t) NULL;
     }
+    self->len = 0;
+    self->size = 0;
+    self->buff = (spif_byteptr_t) NULL;
     return TRUE;
 }
 
